@@ -450,6 +450,10 @@ fn diff<K: Eq + Hash>(from: &FxIndexSet<K>, to: &FxIndexSet<K>) -> Diff {
     let mut moved = vec![];
     let mut added = vec![];
     let max_len = std::cmp::max(from.len(), to.len());
+    // the largest new index of the items that, so far, keep their place in
+    // the DOM: an item can only stay where it is if it still comes after all
+    // of them in the new order
+    let mut last_kept: Option<usize> = None;
 
     for index in 0..max_len {
         let from_item = from.get_index(index);
@@ -479,7 +483,11 @@ fn diff<K: Eq + Hash>(from: &FxIndexSet<K>, to: &FxIndexSet<K>) -> Diff {
                 if let Some(to_item) = to.get_full(from_item) {
                     let moves_forward_by = (to_item.0 as i32) - (index as i32);
                     let move_in_dom = moves_forward_by
-                        != (added.len() as i32) - (removed.len() as i32);
+                        != (added.len() as i32) - (removed.len() as i32)
+                        || matches!(last_kept, Some(kept) if to_item.0 < kept);
+                    if !move_in_dom {
+                        last_kept = Some(to_item.0);
+                    }
 
                     let op = DiffOpMove {
                         from: index,
@@ -490,6 +498,17 @@ fn diff<K: Eq + Hash>(from: &FxIndexSet<K>, to: &FxIndexSet<K>) -> Diff {
                     moved.push(op);
                 }
             }
+        } else if matches!(last_kept, Some(kept) if index < kept) {
+            // same index, but an earlier item that stays in place now comes
+            // after this one: this one has to move in the DOM
+            moved.push(DiffOpMove {
+                from: index,
+                len: 1,
+                to: index,
+                move_in_dom: true,
+            });
+        } else {
+            last_kept = Some(index);
         }
     }
 
@@ -513,7 +532,10 @@ fn group_adjacent_moves(moved: Vec<DiffOpMove>) -> Vec<DiffOpMove> {
     for m in moved {
         match prev {
             Some(mut p) => {
-                if (m.from == p.from + p.len) && (m.to == p.to + p.len) {
+                if (m.from == p.from + p.len)
+                    && (m.to == p.to + p.len)
+                    && (m.move_in_dom == p.move_in_dom)
+                {
                     p.len += 1;
                     prev = Some(p);
                 } else {
